@@ -191,6 +191,13 @@ Agreement ==
                     f == FileNamed(S, "f1.xsd")
                 IN /\ ~Dropped(S, fc, {})
                    /\ FieldViol(ExpFields(S, f, fc.it, fc.it), BuiltFields(S, f, fc.it, fc.it, 8, {})) = {}
+\* the same under the deviations of Dev (no guard): used by `lib/selftest.py devs` - every as-built switch must have a witness
+\* in the bounded space, i.e. some shape on which the walk with that deviation differs from the declaration
+AgreementD == LET S == SetOf(c)
+                  fc == FocusComp(S)
+                  f == FileNamed(S, "f1.xsd")
+              IN /\ ~Dropped(S, fc, Dev)
+                 /\ FieldViol(ExpFields(S, f, fc.it, fc.it), BindNs(BuiltFields(S, f, fc.it, fc.it, 8, Dev), fc.ns, Dev)) = {}
 \* with the listed deviations the model must predict at least the instances of its own walk (sanity of FieldViol)
 Emit == PrintT(<<"CASE", ToJson([prop |-> "C02", drv |-> "gen", start |-> "f1.xsd", files |-> SetOf(c).files])>>)
 
